@@ -55,7 +55,9 @@ def renderHidden (s : Server) : String :=
   let cs := sortStrs (s.clients.map fun (_, i) =>
     let c := getObj s i
     toHex c.id ++ "=" ++ ",".intercalate (sortStrs (c.inflight.map fun m =>
-      s!"{pad5 m.id}.t{m.type}.q{m.qos}" ++ (if m.type == 3 then "." ++ toHex m.payload ++ ".si" ++ "+".intercalate ((m.subIds.filter (· > 0)).map toString) else ""))))
+      s!"{pad5 m.id}.t{m.type}.q{m.qos}" ++ (if m.type == 3 then "." ++ toHex m.payload ++ ".si" ++ "+".intercalate ((m.subIds.filter (· > 0)).map toString) else "")))
+      -- the outbound alias table (handed out even when the message is then dropped)
+      ++ (if c.aliasOut.isEmpty then "" else ";al=" ++ ",".intercalate (sortStrs (c.aliasOut.map fun (t, a) => s!"{a}:{toHex t}"))))
   s!"H[{s.info.inflight}/{s.info.inflightDropped}/{s.info.msgsDropped}|{"|".intercalate cs}]"
 
 /-- render the outputs of one op in the harness's format -/
